@@ -292,6 +292,23 @@ class RefSig:
         self.strict = strict_tasks
         self._memo = {}
         self._full = {}
+        # (task, configuration) for every submitted task that returns one of its own
+        # parameters marked as its output: the mark is set when that task is submitted
+        self.marks = []
+        for j, node in enumerate(bp["nodes"]):
+            if node.get("submit") is not None and self.spec[node["cls"]].get("output") == "param":
+                c = dict(node["args"]).get("cfg")
+                if isinstance(c, dict) and "ref" in c:
+                    self.marks.append((j, c["ref"]))
+        self.END = len(bp["nodes"]) + 1
+
+    def mark_at(self, c, t):
+        """The task whose output mark configuration c carries at time t (None if unmarked)"""
+        m = None
+        for j, cc in self.marks:
+            if cc == c and j < t:
+                m = j
+        return m
 
     # --- values
     def coerce(self, v, tp):
@@ -306,7 +323,16 @@ class RefSig:
             return bool(v)
         return v
 
+    def resolve(self, v):
+        """The output of a task that returns its own parameter *is* that configuration object"""
+        if isinstance(v, dict) and "out" in v:
+            node = self.bp["nodes"][v["out"]]
+            if self.spec[node["cls"]].get("output") == "param":
+                return self.eff[v["out"]]["cfg"]
+        return v
+
     def is_meta_node(self, v):
+        v = self.resolve(v)
         return isinstance(v, dict) and "ref" in v and self.bp["nodes"][v["ref"]].get("meta") is True
 
     def canon_for_default(self, v, tp):
@@ -334,20 +360,21 @@ class RefSig:
             return v["path"]
         return v
 
-    def vsig(self, v, tp, path):
+    def vsig(self, v, tp, path, t=None):
+        t = self.END if t is None else t
         if v is None:
             return ("none",)
         if isinstance(tp, tuple):
             if tp[0] == "opt":
-                return self.vsig(v, tp[1], path)
+                return self.vsig(v, tp[1], path, t)
             if tp[0] == "list":
-                return ("list", tuple(self.vsig(x, tp[1], path) for x in v if not self.is_meta_node(x)))
+                return ("list", tuple(self.vsig(x, tp[1], path, t) for x in v if not self.is_meta_node(x)))
             if tp[0] == "dict":
-                return ("dict", tuple(sorted((k, self.vsig(x, tp[1], path)) for k, x in v["dict"] if not self.is_meta_node(x))))
+                return ("dict", tuple(sorted((k, self.vsig(x, tp[1], path, t)) for k, x in v["dict"] if not self.is_meta_node(x))))
             if tp[0] == "union":
                 if isinstance(v, dict) and "dict" in v:
-                    return self.vsig(v, ("dict", "int"), path)
-                return self.vsig(v, "int", path)
+                    return self.vsig(v, ("dict", "int"), path, t)
+                return self.vsig(v, "int", path, t)
         if tp == "int":
             return ("int", self.coerce(v, "int"))
         if tp == "bool":
@@ -361,25 +388,28 @@ class RefSig:
             return ("enum", "vx.universe." + v["enum"][0], v["enum"][1])
         if tp.startswith("cfg"):
             if "ref" in v:
-                return self.csig(v["ref"], path)
-            return self.outsig(v["out"], path)
+                return self.csig(v["ref"], path, t)
+            return self.outsig(v["out"], path, t)
         raise TypeError(f"no signature for {v!r} of type {tp!r}")
 
     # --- configurations
-    def csig(self, i, path):
-        """Raw signature of node i, hashed below the nodes in `path`"""
+    def csig(self, i, path, t=None):
+        """Raw signature of node i, hashed below the nodes in `path`, as seen at time t
+        (t = index of the task being submitted; END = after the whole build)"""
+        t = self.END if t is None else t
         if i in path:
             return ("cycle", len(path) - path.index(i))
         memo = i not in self.cyc
-        if memo and i in self._memo:
-            return self._memo[i]
+        if memo and (i, t) in self._memo:
+            return self._memo[(i, t)]
         node = self.bp["nodes"][i]
-        r = self._body(node["cls"], self.eff[i], path + [i], None)
+        m = self.mark_at(i, t)
+        r = self._body(node["cls"], self.eff[i], path + [i], None if m is None else self.tasksig(m), t)
         if memo:
-            self._memo[i] = r
+            self._memo[(i, t)] = r
         return r
 
-    def _body(self, cls, args, path, tasksig):
+    def _body(self, cls, args, path, tasksig, t=None):
         sp = self.spec[cls]
         items = []
         for name in sorted(sp["params"]):
@@ -389,7 +419,8 @@ class RefSig:
             v = args.get(name, None)
             if kind == "ign":
                 # ignored ... unless it holds a configuration explicitly flagged meta=False
-                if not (isinstance(v, dict) and "ref" in v and self.bp["nodes"][v["ref"]].get("meta") is False):
+                rv = self.resolve(v)
+                if not (isinstance(rv, dict) and "ref" in rv and self.bp["nodes"][rv["ref"]].get("meta") is False):
                     continue
             if name not in args:
                 v = self._default_value(default, tp)
@@ -400,7 +431,7 @@ class RefSig:
                     continue
             if self.is_meta_node(v):
                 continue
-            items.append((name, self.vsig(v, tp, path)))
+            items.append((name, self.vsig(v, tp, path, t)))
         return ("cfg", sp["id"], tuple(items), tasksig)
 
     def _default_value(self, default, tp):
@@ -420,17 +451,21 @@ class RefSig:
 
     def tasksig(self, j):
         """How the producing task enters the signature of its outputs"""
-        return ("task", self.full(j) if self.strict else self.csig(j, []))
+        return ("task", self.full(j) if self.strict else self.csig(j, [], j))
 
-    def outsig(self, j, path):
+    def outsig(self, j, path, t=None):
+        t = self.END if t is None else t
         node = self.bp["nodes"][j]
         kind = self.spec[node["cls"]]["output"]
         v = self.eff[j].get("v", 0)
         if kind == "self":
             if self.strict:
                 return ("taskself", self.full(j))
-            return self.csig(j, path)
-        leaf = self._body("Leaf", {"i": v}, path + [("leafof", j)], self.tasksig(j))
+            return self.csig(j, path, j)
+        if kind == "param":
+            # the task's own parameter, marked: the very object {"ref": c} designates
+            return self.csig(self.eff[j]["cfg"]["ref"], path, t)
+        leaf = self._body("Leaf", {"i": v}, path + [("leafof", j)], self.tasksig(j), t)
         if kind == "leaf":
             return leaf
         # wrap: Wrap(inner=<marked leaf>, w=v)
@@ -459,12 +494,15 @@ class RefSig:
         return pre
 
     def full(self, i):
+        """Full signature; a submitted task is identified when it is submitted (its identifier is
+        cached from then on), everything else at the end of the build"""
         if i in self._full:
             return self._full[i]
         node = self.bp["nodes"][i]
-        pres = tuple(sorted((self.csig(p, []) for p in self.pre_tasks(i)), key=repr))
-        inits = tuple(self.csig(t, []) for t in (node.get("submit") or {}).get("init", []))
-        r = ("full", self.csig(i, []), pres, inits)
+        t = i if node.get("submit") is not None else self.END
+        pres = tuple(sorted((self.csig(p, [], t) for p in self.pre_tasks(i)), key=repr))
+        inits = tuple(self.csig(k, [], t) for k in (node.get("submit") or {}).get("init", []))
+        r = ("full", self.csig(i, [], t), pres, inits)
         self._full[i] = r
         return r
 
@@ -493,12 +531,21 @@ CLASS_WEIGHTS = [
     ("T", 9),
     ("TOut", 7),
     ("TInner", 4),
+    ("TPass", 5),
 ]
 
 
 def chance(draw, pct):
     """True with probability pct/100; shrinks towards False"""
     return draw(st.integers(0, 99)) >= 100 - pct
+
+
+class Avail(list):
+    """Values a parameter can refer to; .plain = plain configuration objects of the graph"""
+
+    def __init__(self, *a):
+        super().__init__(*a)
+        self.plain = []
 
 
 class GenModel:
@@ -515,12 +562,16 @@ class GenModel:
         sp = spec()
         cls = self.nodes[ref["ref"] if "ref" in ref else ref["out"]]["cls"]
         if "out" in ref:
-            return {"self": cls, "leaf": "Leaf", "wrap": "Wrap"}[sp[cls]["output"]]
+            kind = sp[cls]["output"]
+            if kind == "param":
+                node = self.nodes[ref["out"]]
+                return self.value_class(dict(node["args"])["cfg"])
+            return {"self": cls, "leaf": "Leaf", "wrap": "Wrap"}[kind]
         return cls
 
     def available(self, upto, only_leaf=False):
         sp = spec()
-        out = []
+        out = Avail()
         for j in range(upto):
             n = self.nodes[j]
             s = sp[n["cls"]]
@@ -529,8 +580,10 @@ class GenModel:
                     out.append({"out": j})
             else:
                 out.append({"ref": j})
+                if not s["lw"]:
+                    out.plain.append({"ref": j})
         if only_leaf:
-            out = [r for r in out if self.value_class(r) in ("Leaf", "Leaf2")]
+            return [r for r in out if self.value_class(r) in ("Leaf", "Leaf2")]
         return out
 
     def seal_from(self, i):
@@ -571,6 +624,10 @@ def draw_value(draw, tp, avail, leaf_avail, depth=0):
         return {"path": draw(PATHS)}
     if tp == "cfg:Leaf":
         return draw(st.sampled_from(leaf_avail)) if leaf_avail else None
+    if tp == "cfg:plain":
+        # a plain (non-task, non-lightweight) configuration object of the graph itself
+        plain = getattr(avail, "plain", [])
+        return draw(st.sampled_from(plain)) if plain else None
     if tp == "cfg":
         return draw(st.sampled_from(avail)) if avail else None
     raise TypeError(tp)
@@ -625,6 +682,7 @@ def blueprints(
     root_task=False,
     meta_pct=14,
     density=40,
+    pre_pct=20,
 ):
     sp = spec()
     model = GenModel()
@@ -634,7 +692,7 @@ def blueprints(
     for idx in range(n):
         cls = draw(st.sampled_from(pool))
         if root_task and idx == n - 1:
-            cls = draw(st.sampled_from(["T", "TOut", "TInner"]))
+            cls = draw(st.sampled_from(["T", "TOut", "TInner", "TPass"]))
         if not submits and sp[cls]["task"]:
             cls = "Node"
         args = draw_args(draw, model, cls, idx, density)
@@ -647,8 +705,8 @@ def blueprints(
         if tags and chance(draw, 12):
             node["tags"] = [[draw(st.sampled_from(["t1", "t2"])), draw(st.one_of(st.integers(0, 3), st.sampled_from(["x", "y"])))]]
         lws = [j for j in range(idx) if sp[model.nodes[j]["cls"]]["lw"] and not sp[model.nodes[j]["cls"]]["task"]]
-        if pretasks and lws and not (s["lw"] and not s["task"]) and chance(draw, 20):
-            node["pre"] = draw(st.lists(st.sampled_from(lws), min_size=1, max_size=2, unique=True))
+        if pretasks and lws and not (s["lw"] and not s["task"]) and chance(draw, pre_pct):
+            node["pre"] = draw(st.lists(st.sampled_from(lws), min_size=1, max_size=3, unique=True))
         model.nodes.append(node)
         # patches (cycles and late assignments) on unsealed Node objects
         targets = [j for j in range(idx + 1) if model.nodes[j]["cls"] == "Node" and j not in model.sealed]
